@@ -787,6 +787,7 @@ func Run(r *corr.Run) {
 	m := newModelSession(r)
 	defer m.close()
 	if prop == "" || prop == "C07" {
+		exhibitWidth(r)
 		runC07(r, m, prop == "C07")
 	}
 	if prop == "" || prop == "C08" {
